@@ -284,7 +284,7 @@ func (a Attr) UnmarshalToType(data []byte) (any, error) {
 			v = v.(int64)
 		}
 	case AttrTypeUint:
-		v, err = strconv.ParseUint(string(data), 10, 64)
+		v, err = strconv.ParseUint(string(data), 10, 0)
 
 		if a.Nullable {
 			n := uint(v.(uint64))
